@@ -31,8 +31,8 @@
   root context at all — `C12_every_block_position_is_an_edge` (if / elif / else, for / while / else, with,
   try / except / else / finally, nested to any depth: registered = written, as multisets),
   `C12_registered_are_written`, `C12_block_order_is_source_order`, `C12_block_edges_like_python`;
-  `C12_cex_import_inside_match`: a statement class without a visitor (match, try/except*, class body) loses
-  its imports (known finding). Configuration discovery (`Cli.findPyproject`): `C12_nearest_root_wins`,
+  `C12_match_cases_and_except_star_are_edges` (since /repo 6e8e4cc; `C12_cex_import_inside_match_before_6e8e4cc`);
+  `C12_cex_import_inside_class_body`: a class body is not descended into and loses its imports (known finding). Configuration discovery (`Cli.findPyproject`): `C12_nearest_root_wins`,
   `C12_cwd_root_wins`, `C12_outer_roots_irrelevant`, `C12_stage_ignores_outer_roots`.
 -/
 import RattrModel.Imports
@@ -1488,11 +1488,12 @@ end EdgeTheorems
 `RootContextBuilder` reaches an import statement only through its `visit_` methods
 (RattrModel/ImportBlocks.lean). Python executes an import statement wherever it stands at module level.
 The theorems say: in a file whose module-level statements are of the classes the builder descends into
-(`if` / `elif` / `else`, `for` / `while` with `else`, `with`, `try` / `except` / `else` / `finally`, nested to any
-depth), the import symbols of the root context — the queue of the BFS — are EXACTLY the import symbols
+(`if` / `elif` / `else`, `for` / `while` with `else`, `with`, `try` / `except` / `else` / `finally`, `try` / `except*`,
+`match` / `case` — the last two since /repo 6e8e4cc —, nested to any depth), the import symbols of the root context — the queue of the BFS — are EXACTLY the import symbols
 written in the file (a permutation of them: `try` registers its handlers last); nothing is ever invented;
-and one statement of a class without a visitor (`match`, `try … except*`, a class body) loses what stands
-inside it (`C12_cex_import_inside_match`: a defect of the pinned code, listed in known_findings.json). -/
+and one statement of a class without a descending visitor (a class body) loses what stands inside it
+(`C12_cex_import_inside_class_body`: a defect of the pinned code, listed in known_findings.json; `match` and
+`try … except*` were lost in the same way before 6e8e4cc: `C12_cex_import_inside_match_before_6e8e4cc`). -/
 
 section BlockTheorems
 open Rattr.Blocks
@@ -1531,6 +1532,10 @@ theorem reg_perm_written (b : Blk α) (h : descended b = true) : (reg b).Perm (w
     exact (regL_perm_writtenL b hb).append
       (((regL_perm_writtenL o ho).append ((regL_perm_writtenL f hf).append (regL_perm_writtenL hd hh))).trans
         (try_shuffle _ _ _))
+  | matchS c =>
+    simp only [descended] at h
+    simp only [reg, written]
+    exact regL_perm_writtenL c h
   | noVisit k => simp [descended] at h
 theorem regL_perm_writtenL (l : List (Blk α)) (h : descendedL l = true) : (regL l).Perm (writtenL l) := by
   cases l with
@@ -1562,6 +1567,9 @@ theorem reg_sub_written (b : Blk α) : ∀ a ∈ reg b, a ∈ written b := by
     · exact .inr (.inr (.inl (regL_sub_writtenL o a h)))
     · exact .inr (.inr (.inr (regL_sub_writtenL f a h)))
     · exact .inr (.inl (regL_sub_writtenL hd a h))
+  | matchS c =>
+    simp only [reg, written] at ha ⊢
+    exact regL_sub_writtenL c a ha
   | noVisit k => simp [reg] at ha
 theorem regL_sub_writtenL (l : List (Blk α)) : ∀ a ∈ regL l, a ∈ writtenL l := by
   intro a ha
@@ -1586,6 +1594,9 @@ theorem reg_eq_written (b : Blk α) (h : tryFree b = true) : reg b = written b :
     simp only [tryFree] at h
     simp only [reg, written, regL_eq_writtenL b h]
   | tryS b hd o f => simp [tryFree] at h
+  | matchS c =>
+    simp only [tryFree] at h
+    simp only [reg, written, regL_eq_writtenL c h]
   | noVisit k => simp [tryFree] at h
 theorem regL_eq_writtenL (l : List (Blk α)) (h : tryFreeL l = true) : regL l = writtenL l := by
   cases l with
@@ -1596,8 +1607,8 @@ theorem regL_eq_writtenL (l : List (Blk α)) (h : tryFreeL l = true) : regL l = 
 end
 
 /-- **C12, every module-level block position is an edge.** In a module body made of import statements and
-of `if` / `for` / `while` / `with` / `try` statements nested to any depth, every import symbol written
-anywhere (in an `else`, an `elif`, a handler, a `finally`, …) is registered in the root context — and so put
+of `if` / `for` / `while` / `with` / `try` / `try … except*` / `match` statements nested to any depth, every import
+symbol written anywhere (in an `else`, an `elif`, a handler, a `finally`, a `case`, …) is registered in the root context — and so put
 on the queue of the import loop — exactly as often as it is written. -/
 theorem C12_every_block_position_is_an_edge (l : List (Blk α)) (h : descendedL l = true) :
     (regL l).Perm (writtenL l) ∧ ∀ a, a ∈ writtenL l ↔ a ∈ regL l :=
@@ -1628,10 +1639,38 @@ theorem C12_block_edges_like_python {ω : Type} (ex : Locator.Dotted → Bool) (
   rw [← hmap]
   exact hperm.mem_iff
 
-/-- **Counterexample (defect of the pinned code).** `match x: case 0: import a` followed by `import b`:
-`a` is written (Python may execute it) and is not registered — a module reachable only through it is never
-analysed. The same for `try … except*` and a class body (`Blk.noVisit`). -/
-theorem C12_cex_import_inside_match :
+/-- **C12, `match` cases and `except*` handlers are edges too** (the code since /repo 6e8e4cc; before it:
+`C12_cex_import_inside_match_before_6e8e4cc`). A module body built from import statements and `if` / `for` /
+`while` / `with` / `try` / `try … except*` / `match` statements, nested to any depth — i.e. anything but a
+class / function body: every import symbol written in a `case` body or an `except*` handler (or anywhere else)
+is registered exactly as often as it is written. For `match x: case 0: import a` followed by `import b`:
+both, in source order. -/
+theorem C12_match_cases_and_except_star_are_edges (cs : List (List (Blk α))) (b h o f rest : List (Blk α))
+    (hc : descendedL cs.flatten = true) (hb : descendedL b = true) (hh : descendedL h = true)
+    (ho : descendedL o = true) (hf : descendedL f = true) (hr : descendedL rest = true) :
+    (∀ a, a ∈ writtenL (Blk.matchS cs.flatten :: Blk.tryS b h o f :: rest) ↔
+          a ∈ regL (Blk.matchS cs.flatten :: Blk.tryS b h o f :: rest)) ∧
+    regL [Blk.matchS [Blk.leaf (0 : Nat)], Blk.leaf 1] = [0, 1] := by
+  constructor
+  · have hd : descendedL (Blk.matchS cs.flatten :: Blk.tryS b h o f :: rest) = true := by
+      simp [descendedL, descended, hc, hb, hh, ho, hf, hr]
+    exact (C12_every_block_position_is_an_edge _ hd).2
+  · simp [regL, reg]
+
+/-- **Counterexample, the code before /repo 6e8e4cc** (known finding `:match`, status fixed): without a
+`visit_Match` the statement `match x: case 0: import a` followed by `import b` registered `b` only — a module
+reachable only through `a` was never analysed. (`try … except*` was lost in the same way: no `visit_TryStar`.) -/
+theorem C12_cex_import_inside_match_before_6e8e4cc :
+    regL (before6e8e4ccL [Blk.matchS [Blk.leaf 0], Blk.leaf 1]) = [1] ∧
+    (0 : Nat) ∈ writtenL (before6e8e4ccL [Blk.matchS [Blk.leaf 0], Blk.leaf 1]) ∧
+    regL [Blk.matchS [Blk.leaf 0], Blk.leaf 1] = [0, 1] := by
+  refine ⟨by simp [before6e8e4ccL, before6e8e4cc, regL, reg], by simp [before6e8e4ccL, before6e8e4cc, writtenL, written],
+    by simp [regL, reg]⟩
+
+/-- **Counterexample (defect of the pinned code).** `class K: import a` followed by `import b`: `a` is written
+(Python executes a class body when it imports the module) and is not registered — `visit_ClassDef` adds the
+class and does not descend (`Blk.noVisit`); a module reachable only through it is never analysed. -/
+theorem C12_cex_import_inside_class_body :
     regL [Blk.noVisit [Blk.leaf 0], Blk.leaf 1] = [1] ∧ (0 : Nat) ∈ writtenL [Blk.noVisit [Blk.leaf 0], Blk.leaf 1] ∧
     ¬ (∀ (l : List (Blk Nat)) a, a ∈ writtenL l → a ∈ regL l) := by
   refine ⟨by simp [regL, reg], by simp [writtenL, written], ?_⟩
